@@ -360,21 +360,36 @@ pub fn construct_class(core: &str) -> Option<&'static str> {
             }
         }
     }
-    if f.tail {
-        Some("construct:tail-call")
-    } else if f.midchain {
-        Some("construct:use-after-in-chain-match")
-    } else if recursive_alias {
-        Some("construct:recursive-type")
-    } else if f.generic {
-        Some("construct:generic-function")
-    } else if f.partial_param {
-        Some("construct:partial-typed-parameter")
-    } else if f.bare_binder {
-        Some("construct:nil-accepting-pattern")
-    } else {
-        None
+    // Static presence of the construct, in priority order, each with the dynamic event that
+    // must have occurred in the reference evaluation for the construct to be able to explain a
+    // wrong behaviour of this very program (None: not observable dynamically).
+    let statics: Vec<(&'static str, Option<&'static str>)> = [
+        (f.tail, "construct:tail-call", Some("tail")),
+        (f.midchain, "construct:use-after-in-chain-match", Some("midchain")),
+        (recursive_alias, "construct:recursive-type", None),
+        (f.generic, "construct:generic-function", Some("generic")),
+        (f.partial_param, "construct:partial-typed-parameter", Some("partial-param")),
+        (f.bare_binder, "construct:nil-accepting-pattern", Some("nil-accepted")),
+    ]
+    .into_iter()
+    .filter(|(present, _, _)| *present)
+    .map(|(_, class, ev)| (class, ev))
+    .collect();
+    if statics.is_empty() {
+        return None;
     }
+    // A program that merely *contains* such a construct is not thereby excused: the construct
+    // must have been exercised. The reference interpreter tells (when it can evaluate the program
+    // at all; otherwise the static answer stands).
+    let (res, events) = crate::refeval::evaluate_events(&src, 20_000);
+    let reference_ran = matches!(res, Ok(_) | Err(crate::refeval::Stop::Error(_)));
+    for (class, ev) in statics {
+        match ev {
+            Some(e) if reference_ran && !events.contains(e) => continue,
+            _ => return Some(class),
+        }
+    }
+    None
 }
 
 fn handle(source: &str) -> Acc {
@@ -517,12 +532,12 @@ pub fn universe(thorough: bool) -> (Vec<String>, J) {
     let flat = progen::programs(if thorough { 4 } else { 2 }, if thorough { 3_000_000 } else { 200_000 });
     let flat_n = flat.len();
     out.extend(flat);
-    let inctx = progen::in_contexts(if thorough { 3 } else { 2 }, if thorough { 2_000_000 } else { 45_000 });
+    let (inctx, inctx_capped) = progen::in_contexts(if thorough { 3 } else { 2 }, if thorough { 2_000_000 } else { 45_000 });
     let inctx_n = inctx.len();
     out.extend(inctx);
     let meta = json!({"typed_contexts": TYPED_CONTEXTS.len(), "typed_context_instances": TYPED_CONTEXTS.iter().map(|c| c.1.len()).sum::<usize>(),
         "cores": cores.len(), "generic_cores": generic_cores, "typed_atoms": TYPED_ATOMS.len(), "core_nodes": core_nodes,
-        "typed_programs": typed, "flat_programs": flat_n, "programs_in_untyped_contexts": inctx_n, "probes": PROBES.len()});
+        "typed_programs": typed, "flat_programs": flat_n, "programs_in_untyped_contexts": inctx_n, "untyped_context_products_capped": inctx_capped, "probes": PROBES.len()});
     (out, meta)
 }
 
